@@ -230,13 +230,13 @@ func escapeQuotedStringLit(s string) []byte {
             }
         default:
             if !unicode.IsPrint(r) {
-                var fmted string
-                if r < 65536 {
-                    fmted = fmt.Sprintf("\\u%04x", r)
-                } else {
-                    fmted = fmt.Sprintf("\\U%08x", r)
+                // The yaotl string scanner has no \u / \U escapes; its \xHH
+                // escape stands for one byte, so spell the UTF-8 encoding.
+                var enc [utf8.UTFMax]byte
+                n := utf8.EncodeRune(enc[:], r)
+                for _, c := range enc[:n] {
+                    buf = append(buf, fmt.Sprintf("\\x%02x", c)...)
                 }
-                buf = append(buf, fmted...)
             } else {
                 buf = appendRune(buf, r)
             }
